@@ -58,6 +58,7 @@ class FnSpec:
     slice_from: str = None   # R11
     slice_to: str = None
     slice_sig: str = None
+    slice_tail: str = None
     rename: str = None
     body_only: bool = False
     no_smoke: bool = False
@@ -102,6 +103,8 @@ def parse_vspec(path):
             cur.slice_to = line[9:].strip().strip('"'); continue
         if line.startswith("slice-sig "):
             cur.slice_sig = line[10:].strip(); continue
+        if line.startswith("slice-tail "):
+            cur.slice_tail = line[11:].strip(); continue
         m = re.match(r"^loop\s+(\d+)$", line)
         if m:
             target = cur.loops.setdefault(int(m.group(1)), LoopSpec())
@@ -522,18 +525,25 @@ class Unit:
         a = text.find(sp.slice_from)
         if a < 0:
             raise X.Undecided(f"lost anchor: slice-from {sp.slice_from!r} not found in {fnkey}")
-        a = text.rfind("\n", 0, a) + 1
+        a = self._stmt_start(text, a)
         if sp.slice_to:
             b = text.find(sp.slice_to, a)
             if b < 0:
                 raise X.Undecided(f"lost anchor: slice-to {sp.slice_to!r} not found in {fnkey}")
-            b = text.rfind("\n", 0, b) + 1
+            b = self._stmt_start(text, b)
         else:
             st = sig(lex(text))
             _, _, bo = _find_body_open(st)
             b = st[match_close(st, bo)].start
         self._log("R11-slice-fn", fnkey, 1, f"kept statements between {sp.slice_from!r} and {sp.slice_to!r}")
-        return sp.slice_sig + " {\n" + text[a:b] + "\n}"
+        return sp.slice_sig + " {\n" + text[a:b] + "\n" + (sp.slice_tail or "") + "\n}"
+
+    @staticmethod
+    def _stmt_start(text, pos):
+        """start of the statement containing text[pos]: just after the previous `;`, `{` or `}` that ends a line."""
+        cands = [text.rfind(x, 0, pos) for x in (";\n", "{\n", "}\n")]
+        c = max(cands)
+        return c + 2 if c >= 0 else 0
 
     def fn_of_line(self, line):
         best = None
